@@ -56,7 +56,7 @@ RULE = (
     "an AddedDiag hands to InvQuadLogdet). Non-trivial: specialised sampler OR non-empty batch OR k>1. Distinct by "
     "(class path, n, batch, k, cell, mode)."
 )
-BUDGET = {"quick": 150, "thorough": 500}
+BUDGET = {"quick": 400, "thorough": 1500}
 WALL_GUARD = {"quick": 600, "thorough": 3000}
 SHRINK_BUDGET = {"quick": 60, "thorough": 300}
 
@@ -77,6 +77,8 @@ ASSUMPTIONS = [
     "ciq_samples: restricted to PD operators sampled as a whole by the generic sampler, kappa <= 1e3, default "
     "num_contour_quadrature=15; stated accuracy %r relative to ||A|| (Hale-Higham-Trefethen bound exp(-2 pi^2 N/(log kappa+3)) "
     "< 1e-12 there; the f32 figure is MINRES rounding u*kappa with margin)" % (CIQ_REL,),
+    "KroneckerProductAddedDiag is generated with a strictly positive added diagonal (its algorithms scale by D^{-1/2}; a singular "
+    "noise term is outside what callers of that class pass)",
     "max_root_decomposition_size < n (rank-limited roots) is not generated: the statement says 'to the accuracy of the root used'",
     "exceptions raised while *constructing* the preconditioner in mode 'precond' (pivoted Cholesky) belong to C10 and are counted "
     "as skip:precond_unavailable",
@@ -205,6 +207,48 @@ def _permute_interp_slots(draw, r):
         node["rv"] = dict(node["lv"], lit=reorder(node["lv"]["lit"], len(shp)))
 
 
+PSD_ONLY_HEADS = ("Interpolated", "LowRankRoot", "Kernel", "KeOps")
+KRON_HEADS = ("Kronecker", "KroneckerDiag", "KroneckerAddedDiag", "SumKronecker")
+
+
+def _head_first(draw, heads, doms, dts, batches, max_dim, max_depth, excl, classes=None):
+    """Head class first (per-class quota), then a size / batch / domain the class accepts (construction, no rejection)."""
+    head = draw(st.sampled_from(heads))
+    cfg = gen.Cfg(dt=draw(st.sampled_from(list(dts))), max_dim=max_dim, exclude=excl, classes=classes)
+    dom = "psd" if (head in PSD_ONLY_HEADS and "psd" in doms) else draw(st.sampled_from(doms))
+    batch = draw(st.sampled_from(batches))
+    if head == "BatchRepeat" and not batch:
+        batch = draw(st.sampled_from([b for b in batches if b]))
+    if head in KRON_HEADS:
+        n = draw(st.sampled_from([m for m in (4, 6, 4) if m <= max_dim]))
+    else:
+        n = draw(st.integers(1, max_dim))
+    depth = max(2, draw(st.integers(1, max_depth)))
+    if head in gen._applicable(cfg, dom, n, n, batch, depth):
+        return gen.call_maker(head, draw, cfg, dom, n, n, batch, depth)
+    return gen.gen(draw, cfg, dom, n, n, batch, depth)
+
+
+def _positive_kpad_diag(r):
+    """KroneckerProductAddedDiag is 'Kronecker kernel + noise': its root / solve algorithms scale by D^{-1/2}, so the added
+    diagonal must be strictly positive (the precondition real callers respect).  Zeros in that diagonal become 1/8."""
+
+    def fix(v):
+        if isinstance(v, list):
+            return [fix(x) for x in v]
+        return v if v > 0 else 0.125
+
+    for nd in R.walk(r):
+        if nd["op"] != "KroneckerAddedDiag":
+            continue
+        for a in nd["args"]:
+            if gen.is_diag_instance(a):
+                for sub in R.walk(a):
+                    for key in ("d", "c"):
+                        if key in sub and L.is_lit(sub[key]):
+                            sub[key] = dict(sub[key], lit=fix(sub[key]["lit"]))
+
+
 def _shape_of_recipe(r):
     return refmodel.shape(r)
 
@@ -226,19 +270,19 @@ def cases(draw, tier):
         diag = gen.gen_diaglike(draw, cfg, n, batch, "pd", allow_kron=False)
         r = {"op": "AddedDiag", "args": [base, diag]}
     elif cell_name == "ciq":
-        r = draw(gen.recipes("pd", max_depth=2, max_dim=4, dts=("f64", "f64", "f64", "f32"), exclude=excl, head=CIQ_HEADS,
-                             batches=[(), (), (2,), (1,), (2, 1)], classes=CIQ_HEADS + ["Diag", "ConstantDiag", "Tri", "TriT"]))  # fmt: skip
+        r = _head_first(draw, CIQ_HEADS, ["pd"], ("f64", "f64", "f64", "f32"), [(), (), (2,), (1,), (2, 1)], 4, 2, excl,
+                        classes=CIQ_HEADS + ["Diag", "ConstantDiag", "Tri", "TriT"])  # fmt: skip
     else:
-        dom = draw(st.sampled_from(["psd", "psd", "pd"]))
         heads = SPECIAL_HEADS if draw(st.integers(0, 4)) < 3 else GENERIC_HEADS
-        r = draw(gen.recipes(dom, max_depth=max_depth, max_dim=6, dts=dts, exclude=excl, head=heads, batches=BATCHES18))
+        r = _head_first(draw, heads, ["psd", "psd", "pd"], dts, BATCHES18, 6, max_depth, excl)
     _permute_interp_slots(draw, r)
+    _positive_kpad_diag(r)
     _normalise_for_open_findings(r, _open_triggers())
     shp = _shape_of_recipe(r)
     n = shp[-1]
     members = gen.prod(shp[:-2])
     mult = len(r["args"]) if r["op"] in SUM_NODES else 1
-    kmax = max(1, min(3, 100 // max(1, members * n * mult)))
+    kmax = max(1, min(3, 75 // max(1, members * n * mult)))
     if cell_name == "ciq":
         kmax = min(kmax, 2)
     k = draw(st.integers(1, kmax))
@@ -499,6 +543,25 @@ _KINDS = {
 }
 
 
+_DECLINE_FRAMES = (
+    "zero_mean_mvn_samples", "root_decomposition", "_root_decomposition", "cholesky", "_cholesky", "_choose_root_method",
+    "_symeig", "symeig", "diagonalization", "evaluate_kernel", "_preconditioner",
+)  # fmt: skip
+_DECLINE_MSG = re.compile(r"sampl|positive.definite|root.decomposition|cholesky|symeig|eigen|not PSD|KeOps", re.I)
+
+
+def _declined(e):
+    """An explicit refusal *of sampling / of taking a root* (not-supported / not-PD), raised by a `raise` statement of the
+    library in one of the sampling or factorisation entry points.  An error message produced by some inner helper that was
+    handed internally-built operands (e.g. 'Cannot multiply LinearOperator of size ...' from mul) is NOT a refusal."""
+    import traceback
+
+    if not X.is_declined(e, None):
+        return False
+    tb = traceback.extract_tb(e.__traceback__)
+    return bool(tb) and (tb[-1].name in _DECLINE_FRAMES or bool(_DECLINE_MSG.search(str(e))))
+
+
 def _kind(op):
     for cls in type(op).__mro__:
         if "zero_mean_mvn_samples" in vars(cls):
@@ -634,7 +697,7 @@ def check(case):
                 # the failure happened after a Lanczos run on a deficient Krylov space (C09 territory)
                 return done("skip:lanczos_degenerate", extra=["lanczos_degenerate_exc:" + type(e).__name__])
             path = info["kind"] + ":" + ("+".join(state.algorithms(state._capture.lines)) or "none")
-            if X.is_declined(e, None):
+            if _declined(e):
                 return done("declined:" + type(e).__name__, extra=["declined_head:" + head])
             fail("cov", "exc:" + X.describe(e), "sampling raised %r" % (e,))
     algos = [a for a in state.algorithms(lines) if a in ("cholesky", "lanczos", "symeig", "minres", "cg")]
